@@ -381,7 +381,8 @@ pub fn cases(tier: &str) -> Vec<Case> {
         if thorough {
             v.push(Case { p, layer: Layer::Generic, reuse: false, n: 102_400, threads: 16 });
             v.push(Case { p, layer: Layer::Batteries, reuse: true, n: 102_400, threads: 16 });
-            v.push(Case { p, layer: Layer::Generic, reuse: true, n: 1_024_000, threads: 16 });
+            // 75 000 builds per builder object: beyond any 16-bit call counter
+            v.push(Case { p, layer: Layer::Generic, reuse: true, n: 1_200_000, threads: 16 });
         }
     }
     v
@@ -415,4 +416,4 @@ pub fn replay(case: &Value) -> Report {
     r
 }
 
-pub const RULE: &str = "one case = a history of N builds (quick N=4096 on one thread and N=8192 minted concurrently by 8 threads; thorough additionally N=102400 and N=1024000 from 16 threads) under one key with IDENTICAL claims, footer and assertion, for v1-v4 local x {GenericBuilder, PasetoBuilder with exp/iat/nbf pinned} x {fresh builder per build, one builder reused}; the nonce field of every token is extracted (32 bytes, v2: 24). Monitors: pairwise-distinct nonces and tokens, per-bit one-frequency within N/2 +- 5.3*sqrt(N), no constant byte position; the whole run is executed in two separate processes and the first 64 nonces of every history are compared across processes (fixed-seed PRNG). Idle-pause histories: three bursts of builds on ONE thread (fresh builders, a reused one and a batteries-included builder kept across the pauses) separated by 1.3 s (thorough also 3.1, 11 and 31 s) of idle time: no nonce may recur across a pause. Fault injection through the hook verif::set_rng_fault: while the system RNG fails, 16 builds under identical inputs must either fail or carry pairwise distinct nonces (a fallback to a stale/default/input-derived nonce repeats), and builds must succeed again with distinct tokens once the fault is cleared. distinct_nontrivial = distinct (version, layer, builder mode, N, threads) histories that built >= 1000 tokens";
+pub const RULE: &str = "one case = a history of N builds (quick N=4096 on one thread and N=8192 minted concurrently by 8 threads; thorough additionally N=102400 and N=1200000 from 16 threads, i.e. 75000 builds per builder object) under one key with IDENTICAL claims, footer and assertion, for v1-v4 local x {GenericBuilder, PasetoBuilder with exp/iat/nbf pinned} x {fresh builder per build, one builder reused}; the nonce field of every token is extracted (32 bytes, v2: 24). Monitors: pairwise-distinct nonces and tokens, per-bit one-frequency within N/2 +- 5.3*sqrt(N), no constant byte position; the whole run is executed in two separate processes and the first 64 nonces of every history are compared across processes (fixed-seed PRNG). Idle-pause histories: three bursts of builds on ONE thread (fresh builders, a reused one and a batteries-included builder kept across the pauses) separated by 1.3 s (thorough also 3.1, 11 and 31 s) of idle time: no nonce may recur across a pause. Fault injection through the hook verif::set_rng_fault: while the system RNG fails, 16 builds under identical inputs must either fail or carry pairwise distinct nonces (a fallback to a stale/default/input-derived nonce repeats), and builds must succeed again with distinct tokens once the fault is cleared. distinct_nontrivial = distinct (version, layer, builder mode, N, threads) histories that built >= 1000 tokens";
